@@ -69,3 +69,36 @@ P("C08",
                 "modelled, not verified: Go's `range` UTF-8 decoding (utf8_decode), strconv hex formatting (hex_lo), bytebuf Reduce-based padding (closed form pad0)"],
   assumptions=["html.UnescapeString is the reference entity decoder",
                "the Gallina decoder covers numeric references and the names amp/lt/gt/quot; other named references are outside the escapers' image"])
+
+INTERP_TB = [KERNEL, VMODE, HARNESS,
+             "modelled, not verified: the inspector contract (GetTo/Compare/Length/Loop of koykov/inspector, Model/Value.v), x2bytes text conversion incl. strconv float text (carried with the data, checked by the harness), Go regexp (tag classification: tied by the parser correspondence compile(ast) = dump(Parse(print ast)))",
+             "reference semantics Spec/RefEval.v evaluated on the generator's AST is the property oracle; Spec/Compile.v is tied to the real parser by tree equality on every generated case"]
+INTERP_ASSUME = ["generated templates stay inside the grammar of Spec/Ast.v; constructs outside the reference semantics' domain evaluate to SNA and are judged by the model/implementation correspondence only",
+                 "map iteration order: range loops over maps are generated with at most one entry"]
+
+
+def PI(pid, title, text, design, technique_extra=""):
+    P(pid, title=title, emode=False,
+      technique="Rocq proof over a Gallina model of the tree-walking interpreter (Model/Interp.v) and a reference semantics (Spec/RefEval.v); model, reference semantics and compile function tied to the code on every run by V-mode correspondence (cases.v + vm_compute) on the tree dumped from the real parser" + technique_extra,
+      level_text=text,
+      level_note="Trusted: Coq kernel + vm_compute, the Go harness (generator, Go->Gallina serialiser, verdict parsing), the verif-tagged tree dump hook. The theorems are about the model; the model is validated against the real engine on every generated case (output bytes, error class, write count), the reference semantics against the real output, the compile function against the real parser's tree.",
+      design_ref=design, trusted_base=INTERP_TB, assumptions=INTERP_ASSUME)
+
+
+PI("C01", "Static text and printed values reach the output unchanged and in order",
+   "Theorems (Props/C01.v) about the interpreter model: static text reaches a healthy writer byte for byte as one write, escaped by exactly the bound tag in effect. Each run generates item lists (text, comments, prints with prefix/suffix over every scalar kind, boundary numbers, empty/nil/missing values, both keep-format settings), evaluates them in the model on the real parser's tree, in the reference semantics on the AST, and compares both with the real output; the parser's tree is compared with the compiled AST.", "5 C01")
+PI("C02", "Conditions render exactly the branch their operands select",
+   "Theorems (Props/C02.v): the result of a comparison is the same for every value of the scratch result buffer and error register (it cannot depend on conditions evaluated earlier). Each run generates if/else, ternary and both switch forms over all six operators, three operand placements, every scalar kind, values at/around the constant, len()/cap() and helpers, nested and preceded by other conditions (also on missing fields); model, reference semantics (typed comparison under the left operand's kind) and real engine are compared per case.", "5 C02")
+PI("C03", "Loops run once per element, with separators between and else iff empty",
+   "Theorems (Props/C03.v): a counter loop whose bound comparison fails at the initial value, and a range loop over no elements, perform no iteration and evaluate exactly the else branch. Each run generates counter loops over every bound operator and direction with literal/variable bounds and 0..3 trips, range loops over slices/maps/missing collections with key, value or both, separators, else branches, nests and sequences; model, reference semantics and real engine are compared per case.", "5 C03")
+PI("C11", "Escape letters and chained modifiers compose left to right",
+   "Theorems (Props/C11.v): a run of n+1 identical letters is one more application on top of the run of n (n letters = n-fold application), for every escaper. Each run generates prints with directive strings over {h,a,j,q,J,u,l,c} with repeats and '|' chains (default, ifThen, ifThenElse, escapers, harness modifiers with literal, variable and key-value arguments) over all scalar kinds; the reference semantics applies the chain left to right, modifiers before letters.", "5 C11")
+PI("C14", "break, continue and lazybreak end exactly the loops they name",
+   "Theorems (Props/C14.v): the three instructions are pure signals recording the requested depth. Each run generates nests up to depth 4 mixing counter and range loops with break/lazybreak/continue (plain, with depth N from 1 to beyond the nesting depth, and the five conditional forms) at every body position, with sibling loops before and after; model, reference semantics (break-depth register threaded through the store) and real engine are compared per case.", "5 C14")
+PI("C15", "A variable always reads back its most recent assignment",
+   "Theorems (Props/C15.v): after any setter the name is found and its slot is exactly the setter's image of the previous slot, whatever representation it held. Each run generates histories of ctx tags (literal, variable and modifier sources, ok flags), counter tags (init, ++, --, +n, -n) and loop bindings over three names, interleaved with reads as print, condition operand and modifier argument.", "5 C15")
+PI("C16", "include behaves like inlining; exit stops its template immediately",
+   "Theorems (Props/C16.v): for every prefix and suffix of a template, exit leaves the suffix unevaluated and the template reports success with exactly the output of the prefix. Each run generates include graphs to depth 3 (inside loops, conditions, regions; name lists with missing entries; both spellings) and exit at every position of generated nests; the reference semantics evaluates the included AST in place, sharing store and bound tags.", "5 C16")
+PI("C17", "A failing output writer is always reported to the caller",
+   "Theorems (Props/C17.v): a failing Write is reported and marks the writer; once failed, every later Write fails. Each run renders a generated corpus covering every construct once fault-free and once for EVERY fault position k = 1..writes (plus short writes), in the real engine with a fault-injecting io.Writer and in the model; the oracle on the real observations requires a non-nil error and the accepted bytes to be a prefix of the fault-free output.", "5 C17",
+   technique_extra="; fault positions enumerated exhaustively per template")
